@@ -20,7 +20,14 @@ def run():
              f"route, drop config + gc.collect(), replace the global config, churn}}; every render request evaluates the "
              f"four clauses (strip_equals_nocolor, nocolor_has_no_escape, lines_equal_whole, history_independent) on the "
              f"coloured and the no_color rendering, the reference being a freshly built equal object under a freshly built "
-             f"equal configuration, rendered in a process forked from the pristine interpreter state. (A) grid: every one of the {len(driver.OBJECT_NAMES)} objects (PrettyPrinter "
+             f"equal configuration, rendered in a process forked from the pristine interpreter state. A render request of an "
+             f"object whose rendering is a lazily evaluated result object (PrettyPrinter, PPTable, GHistReport) also carries a "
+             f"consumption schedule carried out on ONE further result object of the request: a list of iter (all lines) / "
+             f"str / plain_text / take k lines and pause / resume the paused iteration / two iterations in lockstep "
+             f"({len(driver.SCHEDULES)} curated schedules rotating over grid, scripted and shared-format histories so that every "
+             f"object meets each; seeded random schedules of 2..6 consumptions, >= 2 of them line by line, in 80% of the render "
+             f"steps of the random histories); every complete consumption must give the text of the first one, a partial one "
+             f"its beginning (lines_equal_whole). (A) grid: every one of the {len(driver.OBJECT_NAMES)} objects (PrettyPrinter "
              f"results, PPTable plain/enum with every modifier, PPRecordFmt, GHistReport over mocked repositories, h/hh help "
              f"of functions, classes, objects, bound methods, MCaller) x {sizes.get('grid_configs')} configurations "
              f"(default, no_color, each colour form named / 0-255 int / rgb tuple / gray on TEXT alone and on every syntax id, "
